@@ -140,6 +140,15 @@ func ensureBuild(verifDir, repoDir string) (*buildInfo, error) {
 	if err != nil {
 		return nil, fmt.Errorf("instrumenting: %v", err)
 	}
+	// 1a. files that exist in the worker build only
+	for rel, content := range meta.OverlayAdd {
+		dst := filepath.Join(tmp, "ov", "add__"+strings.ReplaceAll(rel, "/", "__"))
+		if err := os.WriteFile(dst, []byte(content), 0o644); err != nil {
+			return nil, err
+		}
+		ov[filepath.Join(repoDir, rel)] = dst
+		reps = append(reps, instr.Report{File: rel, Funcs: []string{"added file (worker build only)"}})
+	}
 	// 1b. the simulator owns the scheduler. Inside a synctest bubble the Go
 	// runtime flips coins of its own: it orders timers that fire at the same
 	// fake instant at random (on purpose), polls the ready cases of a select in
